@@ -121,3 +121,12 @@ def c07(run):
 
 
 CHECKS['C07'] = c07
+
+
+def c_dev6(run):
+    from .rules import r6_dispatch
+    r6_dispatch.run_r6(run)
+    run.explanation = 'dev R6'
+
+
+CHECKS['DEV6'] = c_dev6
